@@ -70,11 +70,11 @@ let () =
         let input = if k >= 0 then take k data else data in
         (match read_file input (k >= 0) with
          | POk (f, _) -> pr "OK"; dump_file f
-         | PErr -> pr "ERR" | PPanic -> pr "PANIC" | PFuel -> pr "FUEL")
+         | PErr -> pr "ERR" | PPanic -> pr "PANIC" | PFuel | PEnd -> pr "FUEL")
       | ["FMT"; h] ->
         (match format (data_of h) with
          | POk (b, _) -> pr "OK %s" (hx b)
-         | PErr -> pr "ERR" | PPanic -> pr "PANIC" | PFuel -> pr "FUEL")
+         | PErr -> pr "ERR" | PPanic -> pr "PANIC" | PFuel | PEnd -> pr "FUEL")
       | ["VAL"; h] ->
         (match read_and_validate (data_of h) with
          | None -> pr "unparsable" | Some true -> pr "accept" | Some false -> pr "reject")
